@@ -40,8 +40,10 @@ using std::endl;
 using std::ostringstream;
 using std::stringstream;
 
+// indexed by ParserBuilder::PREFIX (NONE = 0, CONST = 1, URGENT = 2, BROADCAST = 4, URGENT_BROADCAST = 6,
+// SYSTEM_META = 8, HYBRID = 16)
 static const std::string prefix_labels[] = {"", "const ", "urgent ", "", "broadcast ", "", "urgent broadcast ",
-                                            "", "meta "};
+                                            "", "meta ", "", "", "", "", "", "", "", "hybrid "};
 
 void PrettyPrinter::indent()
 {
